@@ -94,6 +94,8 @@ type trans struct {
 }
 
 type funcCtx struct {
+	scopes    []map[string]string // Go block scopes: variable -> Lean name (Lean forbids shadowing a `let mut`; Go's `:=` in an inner block does shadow)
+	fresh     int
 	yieldZero string // prefix translation: what stands for the first result in the `return`s that are kept
 	name    string
 	recv    string
@@ -159,6 +161,8 @@ func (t *trans) leanType(e ast.Expr) string {
 			return "HTTPRequest"
 		case "etree.Element":
 			return "Element"
+		case "x509.Certificate":
+			return "Certificate"
 		}
 		t.failf("unsupported type %s", t.src(x))
 		return "Unit"
@@ -334,7 +338,7 @@ func (t *trans) expr(e ast.Expr) string {
 				return "env." + x.Name
 			}
 		}
-		return leanIdent(x.Name)
+		return t.varName(x.Name)
 	case *ast.SelectorExpr:
 		// package-qualified name
 		if id, ok := x.X.(*ast.Ident); ok {
@@ -581,7 +585,7 @@ func (t *trans) externCall(name, recvType string, recv ast.Expr, c *ast.CallExpr
 		t.addExtern(field, "(Option Element) → Outcome ("+t.leanType(ast.NewIdent(tn))+" × GoError)")
 		t.tmpN++
 		tmp := fmt.Sprintf("call%d'", t.tmpN)
-		t.pre = append(t.pre, "let "+tmp+" := (← env."+field+" "+t.expr(c.Args[0])+")", leanIdent(id.Name)+" := "+tmp+".1")
+		t.pre = append(t.pre, "let "+tmp+" := (← env."+field+" "+t.expr(c.Args[0])+")", t.varName(id.Name)+" := "+tmp+".1")
 		t.cur.mutable[id.Name] = true
 		return tmp + ".2"
 	}
@@ -693,6 +697,25 @@ func (o *out) line(ind int, s string) {
 	o.b.WriteString("\n")
 }
 
+func (t *trans) resolve(name string) (string, int) {
+	if t.cur == nil {
+		return "", -1
+	}
+	for i := len(t.cur.scopes) - 1; i >= 0; i-- {
+		if n, ok := t.cur.scopes[i][name]; ok {
+			return n, i
+		}
+	}
+	return "", -1
+}
+
+func (t *trans) varName(name string) string {
+	if n, d := t.resolve(name); d >= 0 {
+		return n
+	}
+	return leanIdent(name)
+}
+
 func (t *trans) retExpr(results []ast.Expr) string {
 	var v string
 	switch len(results) {
@@ -700,6 +723,10 @@ func (t *trans) retExpr(results []ast.Expr) string {
 		v = "()"
 	case 1:
 		v = t.expr(results[0])
+		if t.cur.yieldZero != "" {
+			// prefix translation of a function with a single (error) result: the value under construction is not returned there
+			v = "(" + t.cur.yieldZero + ", " + v + ")"
+		}
 	default:
 		var s []string
 		for i, r := range results {
@@ -722,6 +749,8 @@ func (t *trans) block(o *out, ind int, b *ast.BlockStmt) {
 		o.line(ind, "pure ()")
 		return
 	}
+	t.cur.scopes = append(t.cur.scopes, map[string]string{})
+	defer func() { t.cur.scopes = t.cur.scopes[:len(t.cur.scopes)-1] }()
 	for _, s := range b.List {
 		t.stmt(o, ind, s)
 	}
@@ -732,11 +761,30 @@ func (t *trans) declare(o *out, ind int, name string, val string) {
 		o.line(ind, "let _ := "+val)
 		return
 	}
+	cur := len(t.cur.scopes) - 1
+	if cur < 0 {
+		t.cur.scopes = append(t.cur.scopes, map[string]string{})
+		cur = 0
+	}
+	ln, depth := t.resolve(name)
+	switch {
+	case depth == cur && t.cur.mutable[name]:
+		// Go: `:=` with this variable already declared in the same scope assigns to it
+		o.line(ind, ln+" := "+val)
+		return
+	case depth >= 0 && t.cur.mutable[name]:
+		// a new variable of the same name in an inner scope (Lean does not let a `let mut` be shadowed)
+		t.cur.fresh++
+		ln = fmt.Sprintf("%s_%d", leanIdent(name), t.cur.fresh)
+	default:
+		ln = leanIdent(name)
+	}
+	t.cur.scopes[cur][name] = ln
 	kw := "let "
 	if t.cur.mutable[name] {
 		kw = "let mut "
 	}
-	o.line(ind, kw+leanIdent(name)+" := "+val)
+	o.line(ind, kw+ln+" := "+val)
 }
 
 // stmt renders one statement; calls that modify the receiver are hoisted into statements of their own,
@@ -783,7 +831,15 @@ func (t *trans) stmt1(o *out, ind int, s ast.Stmt) {
 					if t.cur.mutable[n.Name] {
 						kw = "let mut "
 					}
-					o.line(ind, kw+leanIdent(n.Name)+" : "+t.leanType(vs.Type)+" := "+t.zeroValue(vs.Type))
+					ln := leanIdent(n.Name)
+					if _, d := t.resolve(n.Name); d >= 0 && t.cur.mutable[n.Name] {
+						t.cur.fresh++
+						ln = fmt.Sprintf("%s_%d", ln, t.cur.fresh)
+					}
+					if len(t.cur.scopes) > 0 {
+						t.cur.scopes[len(t.cur.scopes)-1][n.Name] = ln
+					}
+					o.line(ind, kw+ln+" : "+t.leanType(vs.Type)+" := "+t.zeroValue(vs.Type))
 				}
 			}
 		}
@@ -826,7 +882,7 @@ func (t *trans) assign(o *out, ind int, x *ast.AssignStmt) {
 			if x.Tok == token.DEFINE {
 				t.declare(o, ind, l.Name, t.expr(x.Rhs[0]))
 			} else if x.Tok == token.ASSIGN {
-				o.line(ind, leanIdent(l.Name)+" := "+t.expr(x.Rhs[0]))
+				o.line(ind, t.varName(l.Name)+" := "+t.expr(x.Rhs[0]))
 			} else {
 				t.failf("%s: unsupported assignment operator", t.cur.name)
 			}
@@ -849,9 +905,10 @@ func (t *trans) assign(o *out, ind int, x *ast.AssignStmt) {
 			}
 		}
 	}
-	if len(x.Rhs) == 1 && len(x.Lhs) > 1 && x.Tok == token.DEFINE {
-		// v, err := call(...)
+	if len(x.Rhs) == 1 && len(x.Lhs) > 1 && (x.Tok == token.DEFINE || x.Tok == token.ASSIGN) {
+		// v, err := call(...)   /   v, err = call(...)
 		var ns []string
+		anyMut := x.Tok == token.ASSIGN
 		for _, l := range x.Lhs {
 			id, ok := l.(*ast.Ident)
 			if !ok {
@@ -859,11 +916,38 @@ func (t *trans) assign(o *out, ind int, x *ast.AssignStmt) {
 				return
 			}
 			if t.cur.mutable[id.Name] {
-				t.failf("%s: multi-value definition of a reassigned variable %s", t.cur.name, id.Name)
+				anyMut = true
 			}
-			ns = append(ns, leanIdent(id.Name))
+			ns = append(ns, id.Name)
 		}
-		o.line(ind, "let ("+strings.Join(ns, ", ")+") := "+t.expr(x.Rhs[0]))
+		if !anyMut {
+			for i := range ns {
+				ns[i] = leanIdent(ns[i])
+			}
+			o.line(ind, "let ("+strings.Join(ns, ", ")+") := "+t.expr(x.Rhs[0]))
+			return
+		}
+		t.tmpN++
+		tmp := fmt.Sprintf("multi%d'", t.tmpN)
+		o.line(ind, "let "+tmp+" := "+t.expr(x.Rhs[0]))
+		for i, n := range ns {
+			proj := tmp
+			// right-nested pairs: (a, b, c) = (a, (b, c))
+			for k := 0; k < i; k++ {
+				proj += ".2"
+			}
+			if i < len(ns)-1 {
+				proj += ".1"
+			}
+			if n == "_" {
+				continue
+			}
+			if x.Tok == token.ASSIGN {
+				o.line(ind, t.varName(n)+" := "+proj)
+			} else {
+				t.declare(o, ind, n, proj)
+			}
+		}
 		return
 	}
 	if len(x.Lhs) == len(x.Rhs) && x.Tok == token.DEFINE {
@@ -1129,6 +1213,9 @@ func (t *trans) function(name string) {
 		}
 		body = body[:end]
 		ctx.yieldZero = map[string]string{"String": `""`, "Int": "(0 : Int)", "Bool": "false"}[sp.yieldTy]
+		if strings.HasPrefix(sp.yieldTy, "(List ") {
+			ctx.yieldZero = "[]"
+		}
 		res = "(" + sp.yieldTy + " × GoError)"
 	} else {
 		res = t.resultType(fd.Type.Results)
@@ -1278,7 +1365,8 @@ func translate(repo string, p *pkgFiles, outPath string) {
 	t := &trans{p: p, structs: map[string]*ast.StructType{}, ifaces: map[string]*ast.InterfaceType{}, named: map[string]ast.Expr{},
 		funcs: map[string]*ast.FuncDecl{}, specs: map[string]transSpec{}, usedF: map[string]map[string]bool{}, usedM: map[string]map[string]bool{},
 		envVars: map[string]string{}, done: map[string]bool{}, bodies: map[string]string{},
-		externs: map[string]bool{"validateSignature": true, "decryptElement": true, "unmarshalElement": true, "findChildren": true}, extSigs: map[string]string{}}
+		externs: map[string]bool{"validateSignature": true, "decryptElement": true, "unmarshalElement": true, "findChildren": true,
+			"findChild": true, "getIDPSigningCerts": true, "getCertBasedOnFingerprint": true, "parseCert": true}, extSigs: map[string]string{}}
 	var files []*ast.File
 	for _, fn := range sortedFileNames(p) {
 		f := p.files[fn]
@@ -1331,6 +1419,7 @@ func translate(repo string, p *pkgFiles, outPath string) {
 		{fn: "parseEncryptedAssertion", recv: "ServiceProvider"},
 		{fn: "parseResponse", recv: "ServiceProvider"},
 		{fn: "findOneChild"},
+		{fn: "validateSignature", recv: "ServiceProvider", as: "trustRoots", until: "certificateStore :=", yield: "certs", yieldTy: "(List (Option Certificate))"},
 		{fn: "parseArtifactResponse", recv: "ServiceProvider"},
 		{fn: "getSPEncryptionCert", recv: "IdpAuthnRequest", until: "certStr = regexp.", yield: "certStr", yieldTy: "String"},
 		{fn: "getACSEndpoint", recv: "IdpAuthnRequest", mutRecv: true},
